@@ -29,6 +29,7 @@ GENERATORS = {
     "Effects_gen": "translator.gen_effects",
     "Small_gen": "translator.gen_small",
     "RewriterTable_gen": "translator.gen_rewriter",
+    "TryRoute_gen": "translator.gen_tryroute",
 }
 
 
